@@ -126,7 +126,8 @@ def _forbid_control(m_body, what):
         raise Unsupported("%s: closure body contains return/break/continue/? - rule not applicable" % what)
 
 
-N1_VALUE_RECEIVERS = set()   # receivers that are local VALUES (auto-ref by the method call), set from the contract (@n1-value)
+import threading
+_TLS = threading.local()   # per-thread: receivers that are local VALUES (auto-ref by the method call), from @value-receiver
 
 
 def n1_map_with_mut(body, log):
@@ -152,7 +153,7 @@ def n1_map_with_mut(body, log):
         param = body[ps:pe].strip()
         cbody = body[bs:be]
         _forbid_control(m[bs:be], "N1")
-        borrow = ("&mut %s" if recv in N1_VALUE_RECEIVERS else "&mut *%s") % recv
+        borrow = ("&mut %s" if recv in getattr(_TLS, "n1_values", ()) else "&mut *%s") % recv
         new = "{ let __r = %s; let %s = __r.take(); let __v = %s; *__r = __v; }" % (borrow, param, cbody)
         body = body[:rs] + new + body[close_p + 1:]
         log.append("N1")
@@ -639,8 +640,7 @@ DEFAULT_ORDER = ["N8", "N4", "N18", "N1", "N2", "N14", "N10", "N12", "N13", "N3"
 
 
 def normalise(body, rules=None, n1_values=()):
-    global N1_VALUE_RECEIVERS
-    N1_VALUE_RECEIVERS = set(n1_values)
+    _TLS.n1_values = set(n1_values)
     log = []
     body, nlog = strip_logging(body)
     for r in (rules if rules is not None else DEFAULT_ORDER):
